@@ -56,6 +56,6 @@ def glyphSetJ (gs : GlyphSet) : Json := listJ (fun e => glyphJ e.2) gs
 
 def gerrJ : GErr → Json
   | .missing _ => "MissingComponentError" | .recursion => "RecursionError" | .cyclic => "InvalidFontData"
-  | .valueError => "ValueError" | .assertion => "AssertionError"
+  | .valueError => "ValueError" | .assertion => "AssertionError" | .exception => "Exception"
 
 end Ufo2ft.Drv
